@@ -338,6 +338,21 @@ func (g *genv) applyPre(c *tcase, withPreHas bool) error {
 			g.w[0].listenBlob(blob.MustParse("sha224-" + hexOf("sha224", c.T)))
 		}
 	}
+	if c.Pre == "lower-removed" {
+		lower := g.e.Mems["/lower/"]
+		if lower == nil {
+			return fmt.Errorf("prestate lower-removed on %s: no /lower/ store", g.spec.Name)
+		}
+		var refs []blob.Ref
+		for _, h := range []string{"sha1", "sha224", "sha256"} {
+			R := blob.MustParse(h + "-" + hexOf(h, c.T))
+			lower.PutRaw(R, c.T)
+			refs = append(refs, R)
+		}
+		if err := g.sto.RemoveBlobs(ctxBg, refs); err != nil {
+			return fmt.Errorf("prestate lower-removed on %s: RemoveBlobs: %v", g.spec.Name, err)
+		}
+	}
 	if withPreHas && c.PreHas {
 		if _, has := g.lookup(c.R); !has {
 			// the bytes that legitimately match R
